@@ -34,6 +34,13 @@ CONNECTION WITH THE USE OR PERFORMANCE OF THIS SOFTWARE.
 
 #define TREE_NODE_LEAF    (TreeElement) (1 << (sizeof(TreeElement) * 8 - 1))
 
+#ifdef LHASA_VERIF
+// Verification hook (off by default): reports a freshly built tree to an
+// external monitor that checks its structural invariant.
+extern void lhasa_verif_tree(const void *tree, unsigned long tree_len,
+                             unsigned long elem_size, const char *where);
+#endif
+
 // Structure used to hold data needed to build the tree.
 
 typedef struct {
@@ -72,6 +79,10 @@ static void init_tree(TreeElement *tree, size_t tree_len)
 static void set_tree_single(TreeElement *tree, TreeElement code)
 {
 	tree[0] = (TreeElement) code | TREE_NODE_LEAF;
+
+#ifdef LHASA_VERIF
+	lhasa_verif_tree(tree, 1, sizeof(TreeElement), "set_tree_single");
+#endif
 }
 
 // "Expand" the list of queue entries. This generates a new child
@@ -200,6 +211,11 @@ static void build_tree(TreeElement *tree, size_t tree_len,
 
 	} while (add_codes_with_length(&build, code_lengths,
 	                               num_code_lengths, code_len));
+
+#ifdef LHASA_VERIF
+	lhasa_verif_tree(tree, (unsigned long) tree_len,
+	                 sizeof(TreeElement), "build_tree");
+#endif
 }
 
 /*
